@@ -294,6 +294,9 @@ class SymStr:
         core.ENG and core.ENG.notes.append('native str() of SymStr')
         return '<sym:%d>' % len(self.cs)
 
+    def __fspath__(self):
+        raise Unsupported('a symbolic string used as a file-system path by native code')
+
     def __hash__(self):
         if _HASH_OK[0]:
             return 0x5e5e5e
